@@ -33,6 +33,17 @@ CONF_KNOBS = {
 VALUE_TYPES = ("Visibilities", "VisibilitiesNoiseMap", "Grid2D", "Array2D", "Kernel2D", "VectorYX2D", "Array1D", "Mask2D", "Grid2DIrregular", "ArrayIrregular")
 
 
+_INV_SOLVER = ["reconstruction", "log_det_curvature_reg_matrix_term", "log_det_regularization_matrix_term", "regularization_term", "mapped_reconstructed_data",
+               "reconstruction_noise_map", "mapped_reconstructed_image", "reconstruction_reduced"]
+SOLVER_READS = {
+    "InversionImagingMapping": _INV_SOLVER,
+    "InversionImagingWTilde": _INV_SOLVER,
+    "FitStub": ["log_evidence", "figure_of_merit", "chi_squared", "log_likelihood_with_regularization"],
+    "MapperRectangular": ["regularization_matrix"],
+    "MapperDelaunay": ["regularization_matrix"],
+}
+
+
 class StopRun(Exception):
     pass
 
@@ -466,7 +477,9 @@ class PuritySim:
         clients = []
         for c in range(k["n_clients"]):
             role = rs.choice(["reader", "reader", "reader", "deriver", "deriver", "constructor"])
-            anchor = rs.choice(ids)
+            # client affinity, weighted towards graph nodes (objects built from other objects)
+            weights = [3 if self.world.passed.get(n) else 1 for n in ids]
+            anchor = rs.choices(ids, weights=weights)[0]
             near = [anchor] + [d for d in self.world.passed.get(anchor, []) if d in self.world.env]
             near += [n for n in ids if anchor in self.world.passed.get(n, [])]
             rs.shuffle(near)
@@ -485,7 +498,17 @@ class PuritySim:
                 self.apply({"op": "env", "kind": "rng_perturb", "k": rf.randrange(0, 2**31), "draws": rf.randrange(0, 50)})
                 continue
             elif u < k["p_evict"] + k["p_rng"] + k["p_solver"]:
-                self.apply({"op": "env", "kind": "solver_fail", "nth": rf.randrange(1, 4)})
+                # a fault while idle tests nothing: arm it right before a read that calls into a solver
+                targets = [n for n in self.world.order if n in self.world.env and type(self.world.env[n]).__name__ in SOLVER_READS]
+                if targets:
+                    t = rf.choice(targets)
+                    self.apply({"op": "env", "kind": "solver_fail", "nth": rf.randrange(1, 3)})
+                    name = rf.choice(SOLVER_READS[type(self.world.env[t]).__name__])
+                    self.apply({"op": "read", "client": rs.choice(clients)["name"], "target": t, "q": {"t": "prop", "name": name}})
+                    # bounded liveness: the re-read once the fault has stopped must give the reference value
+                    if rf.random() < 0.7:
+                        self.apply({"op": "read", "client": rs.choice(clients)["name"], "target": t, "q": {"t": "prop", "name": name}})
+                    continue
             client = rs.choice(clients)
             op = self.propose(client, rs)
             if op is None:
@@ -709,6 +732,6 @@ ASSUMPTIONS = [
     "sampling, not enumeration: a clean batch is evidence, not proof",
 ]
 TIERS = {
-    "quick": {"batches": [("nofault", 900), ("fault", 500)], "wall_cap": 80.0},
+    "quick": {"batches": [("nofault", 1500), ("fault", 900)], "wall_cap": 100.0},
     "thorough": {"batches": [("nofault", 60000), ("fault", 30000)], "wall_cap": 1200.0, "selftest_seeds": 40},
 }
